@@ -1,5 +1,6 @@
 (** * C18 - Allocation gives each participant one fresh, disjoint, exact-size ticket range. *)
-From LP Require Import Proofs.Tactics Proofs.Filter Proofs.Alloc Proofs.Gates Proofs.Examples.
+From LP Require Import Proofs.Tactics Proofs.Filter Proofs.Alloc Proofs.Gates Proofs.Examples
+  Proofs.Confirm Proofs.Setup Proofs.SetupGt Proofs.SetupNft Proofs.SetupNgt Proofs.SetupAll.
 Open Scope N_scope.
 
 (** one allocation: accepted iff the participant has no range yet (a second listing, within or
@@ -7,7 +8,7 @@ Open Scope N_scope.
 Theorem C18_one : forall s a n s',
   n < usize_lim ->
   (try_create_tickets s a n = Ok s' <->
-   range s a = None /\ last_ticket_id s + 1 < u64_lim - 1 - n /\ s' = alloc_one s a n).
+   0 < n /\ range s a = None /\ last_ticket_id s + 1 < u64_lim - 1 - n /\ s' = alloc_one s a n).
 Proof. exact try_create_tickets_iff. Qed.
 
 (** a batch: participants are distinct and new, ranges are consecutive in order, total tickets grow
@@ -60,7 +61,39 @@ Example C18_nonvacuous :
   exec_sha Base (mkenv 1 2 0 []) 5 [] base0 (CAddTickets [(2, 1); (2, 1)]) = Err FUser.
 Proof. vm_compute. repeat split. Qed.
 
+(** an allocation of zero tickets is rejected (repair of finding F10: it used to store an empty range
+    that no later step removes); consequently every accepted allocation transaction extends a set-up
+    history in the sense of the "from deployment" theorems - their side condition "at least one ticket
+    per listed participant" is implied by acceptance *)
+Theorem C18_zero_rejected : forall s a n s', try_create_tickets s a n = Ok s' -> 0 < n.
+Proof. exact try_create_positive. Qed.
+
+Theorem C18_accepted_allocation_extends : forall (H : list N -> list N) v w e b sd la w' r,
+  setup_reach H v w -> ~ In sc_addr (map fst la) -> pay_wf (pay e) -> caller e <> sc_addr ->
+  exec H v e b sd w (CAddTickets la) = Ok (w', r) -> setup_reach H v w'.
+Proof. exact setup_reach_add_any. Qed.
+
+Theorem C18_accepted_allocation_extends_gt : forall (H : list N -> list N) v w e b sd lx w' r,
+  setup_reach_gt H v w -> ~ In sc_addr (map fst (v1_sizes lx)) ->
+  exec H v e b sd w (CAddTicketsV1 lx) = Ok (w', r) -> setup_reach_gt H v w'.
+Proof. exact setup_reach_gt_add_any. Qed.
+
+Theorem C18_accepted_allocation_extends_nft : forall (H : list N -> list N) w e b sd la w' r,
+  setup_reach_nft H w -> ~ In sc_addr (map fst la) -> pay_wf (pay e) -> caller e <> sc_addr ->
+  exec H Nft e b sd w (CAddTickets la) = Ok (w', r) -> setup_reach_nft H w'.
+Proof. exact setup_reach_nft_add_any. Qed.
+
+Theorem C18_accepted_allocation_extends_ngt : forall (H : list N -> list N) w e b sd lx w' r,
+  setup_reach_ngt H w -> ~ In sc_addr (map fst (v1_sizes lx)) ->
+  exec H Ngt e b sd w (CAddTicketsV1 lx) = Ok (w', r) -> setup_reach_ngt H w'.
+Proof. exact setup_reach_ngt_add_any. Qed.
+
 Print Assumptions C18_one.
+Print Assumptions C18_zero_rejected.
+Print Assumptions C18_accepted_allocation_extends.
+Print Assumptions C18_accepted_allocation_extends_gt.
+Print Assumptions C18_accepted_allocation_extends_nft.
+Print Assumptions C18_accepted_allocation_extends_ngt.
 Print Assumptions C18_batch.
 Print Assumptions C18_invariant.
 Print Assumptions C18_v2_limits.
